@@ -4,6 +4,7 @@ import AaVerif.Aa.ParsePtrace
 import AaVerif.Aa.ParseSignal
 import AaVerif.Aa.ParseRlimit
 import AaVerif.Aa.ParseChangeProfile
+import AaVerif.Aa.ParseLink
 import AaVerif.Generated.AaTables
 /-!
 # C09 — rule text round-trips through the printer and the parser
@@ -256,6 +257,20 @@ example : (parseCommaRules false (renderRule (cpRule true false (S "unsafe") (S 
 /-- the excluded point: an exec word that is a mode keyword is read as the mode -/
 example : (parseCommaRules false (renderRule (cpRule false false [] (S "safe") (S "t")) (padOf []) ++ S "\n")).bind (newRules T)
     = .ok [mkRule "change_profile" noQ {} [.s (S "safe"), .s [], .s (S "t")]] := by decide +kernel
+
+/-- **`[owner] link [subset] PATH -> TARGET,` through the library's own parser**: every qualifier, owner and subset flag,
+every keyword-like path word that starts with `/` or `@` and every keyword-like target word; the owner flag is read by
+`newRule1` and written into the finished rule -/
+theorem C09_link_all (audit deny owner subset : Bool) (a b : Text) (ha : CapW a) (hp : PathHead a) (hb : CapW b) :
+    (parseCommaRules false (renderRule (linkRule audit deny owner subset a b) (padOf []) ++ S "\n")).bind (newRules T) =
+      .ok [mkRule "link" (audit, if deny then S "deny" else []) {} [.b owner, .b subset, .s a, .s b]] :=
+  parse_link T audit deny owner subset a b ha hp hb
+
+example : (parseCommaRules false (renderRule (linkRule true true true true (S "/etc/a*") (S "@{HOME}/b")) (padOf []) ++ S "\n")).bind (newRules T)
+    = .ok [mkRule "link" (true, S "deny") {} [.b true, .b true, .s (S "/etc/a*"), .s (S "@{HOME}/b")]] := by decide +kernel
+
+example : CapW (S "/etc/a*") ∧ PathHead (S "/etc/a*") ∧ CapW (S "/var/lib/b") :=
+  ⟨by decide +kernel, ⟨'/', S "etc/a*", rfl, Or.inl rfl⟩, by decide +kernel⟩
 
 /-! ## Whole-text round trips over the complete value tables
 
